@@ -77,9 +77,20 @@ static volatile sig_atomic_t g_armed;
 static volatile uintptr_t g_fault_addr;
 static volatile int g_fault_sig;
 
+/* optional: told when the process dies OUTSIDE a guarded call -- in practice
+ * glibc aborting in the harness's own free()/malloc() because an earlier
+ * library call corrupted the heap.  A driver that can attribute the crash
+ * logs it as an event and _exit(0)s so that the trace survives. */
+static void (*g_late_crash)(int sig);
+
 static void g_handler(int sig, siginfo_t *si, void *ctx) {
     (void)ctx;
     if (!g_armed) {
+        if (g_late_crash) {
+            void (*cb)(int) = g_late_crash;
+            g_late_crash = NULL;
+            cb(sig);
+        }
         /* a fault in the harness itself: die loudly */
         signal(sig, SIG_DFL);
         raise(sig);
